@@ -905,6 +905,15 @@ func init() {
 		return arr
 	}
 	externals["github.com/go-viper/mapstructure/v2.Decode"] = mapstructureDecode
+	// a sha256 digest object (sha256.New, Write, Sum, Reset) is interpreted from source; its
+	// assembly block function is replaced by the package's own portable one
+	externals["crypto/internal/boring/sig.StandardCrypto"] = func(fr *frame, a []value) value { return nil }
+	externals["crypto/internal/boring/sig.BoringCrypto"] = func(fr *frame, a []value) value { return nil }
+	externals["crypto.RegisterHash"] = func(fr *frame, a []value) value { return nil }
+	externals["crypto/sha256.block"] = func(fr *frame, a []value) value {
+		p := fr.i.prog.ImportedPackage("crypto/sha256")
+		return call(fr.i, fr.caller, token.NoPos, p.Func("blockGeneric"), a)
+	}
 }
 
 // mapstructureDecode models mapstructure.Decode(input, &struct) for flat
